@@ -47,6 +47,7 @@ type Gen struct {
 	loadErrs    []string
 	files       []*ContractFile
 	strUF       bool
+	ghostGlobals map[string]*TypeExpr // pkgPath.name
 }
 
 func loadGen(repoDir string, patterns []string, extDir string) (*Gen, error) {
@@ -153,6 +154,12 @@ func loadGen(repoDir string, patterns []string, extDir string) (*Gen, error) {
 			}
 		}
 	}
+	g.ghostGlobals = map[string]*TypeExpr{}
+	for _, cf := range g.files {
+		for _, gv := range cf.GhostVars {
+			g.ghostGlobals[cf.PkgPath+"."+gv.Name] = gv.T
+		}
+	}
 	for _, cf := range g.files {
 		for _, gf := range cf.Ghosts {
 			g.ghosts[gf.PkgPath+"."+gf.Name] = gf
@@ -248,6 +255,9 @@ func (g *Gen) resolveContract(fc *FuncContract) error {
 	}
 	if fc.Closure != "" {
 		return g.resolveClosure(fc, p)
+	}
+	if fc.FieldOf != "" {
+		return g.resolveFuncField(fc, p)
 	}
 	src := "package p\n" + fc.Header + " {}\n"
 	fset := token.NewFileSet()
@@ -557,4 +567,79 @@ func max(a, b int) int {
 		return a
 	}
 	return b
+}
+
+// resolveFuncField: contract for dynamic calls through a function-typed struct field.
+func (g *Gen) resolveFuncField(fc *FuncContract, p *packages.Package) error {
+	tn, ok := p.Types.Scope().Lookup(fc.FieldOf).(*types.TypeName)
+	if !ok {
+		return fmt.Errorf("contract anchor not found: type %s in %s", fc.FieldOf, fc.PkgPath)
+	}
+	st, ok := tn.Type().Underlying().(*types.Struct)
+	if !ok {
+		return fmt.Errorf("funcfield: %s is not a struct", fc.FieldOf)
+	}
+	var sig *types.Signature
+	for i := 0; i < st.NumFields(); i++ {
+		if st.Field(i).Name() == fc.FieldName {
+			sig, _ = st.Field(i).Type().Underlying().(*types.Signature)
+		}
+	}
+	if sig == nil {
+		return fmt.Errorf("contract anchor not found: function-typed field %s.%s", fc.FieldOf, fc.FieldName)
+	}
+	fset := token.NewFileSet()
+	f, err := parser.ParseFile(fset, "hdr.go", "package p\n"+fc.Header+" {}\n", 0)
+	if err != nil {
+		return fmt.Errorf("bad funcfield header %q: %v", fc.Header, err)
+	}
+	fd := f.Decls[0].(*ast.FuncDecl)
+	var names, rnames []string
+	if fd.Type.Params != nil {
+		for _, fl := range fd.Type.Params.List {
+			for _, n := range fl.Names {
+				names = append(names, n.Name)
+			}
+		}
+	}
+	if fd.Type.Results != nil {
+		for _, fl := range fd.Type.Results.List {
+			for _, n := range fl.Names {
+				rnames = append(rnames, n.Name)
+			}
+		}
+	}
+	if len(names) != sig.Params().Len() || len(rnames) != sig.Results().Len() {
+		return fmt.Errorf("funcfield header %q does not match the field's signature (name every parameter and result)", fc.Header)
+	}
+	si := &sigInfo{}
+	for i := range names {
+		si.params = append(si.params, paramInfo{names[i], sig.Params().At(i).Type()})
+	}
+	for i := range rnames {
+		si.results = append(si.results, paramInfo{rnames[i], sig.Results().At(i).Type()})
+	}
+	g.sigs[fc] = si
+	fc.Key = "field:" + fc.PkgPath + "." + fc.FieldOf + "." + fc.FieldName
+	fc.Trusted = true
+	return nil
+}
+
+// fieldCallKey: key of the funcfield contract for a dynamic call whose function value is loaded from a struct field.
+func fieldCallKey(v ssa.Value) string {
+	u, ok := v.(*ssa.UnOp)
+	if !ok {
+		return ""
+	}
+	fa, ok := u.X.(*ssa.FieldAddr)
+	if !ok {
+		return ""
+	}
+	st := fa.X.Type().Underlying().(*types.Pointer).Elem()
+	n, ok := st.(*types.Named)
+	if !ok || n.Obj().Pkg() == nil {
+		return ""
+	}
+	f := st.Underlying().(*types.Struct).Field(fa.Field)
+	return "field:" + n.Obj().Pkg().Path() + "." + n.Obj().Name() + "." + f.Name()
 }
